@@ -23,6 +23,9 @@ KIDA_LINES = [
     {"reactants": ["C2", "CR"], "products": ["C", "C"], "a": "1.3e-17", "b": "0.0", "c": "0.0", "tmin": "-9999", "tmax": "9999", "idx": 15, "code": 1},
 ]
 KIDA_TEXT = "\n".join(encoders.kida(r) for r in KIDA_LINES) + "\n"
+# the same network numbered 1, 2, 3, 4, 4, 5: every file index is also the *position* of another reaction
+KIDA_SMALL_TEXT = "\n".join(encoders.kida(dict(r, idx=r["idx"] - 10)) for r in KIDA_LINES) + "\n"
+SMALL_INDEX_SETS = {"small-index-zero", "small-index"}
 
 RATE_SETS = {
     "present": {11: "1.5e-10*zeta"},
@@ -33,6 +36,10 @@ RATE_SETS = {
     "index0": {0: "7.0"},
     # written by hand into naunet_config.toml as TOML numbers (0.0 = switch the reaction off)
     "toml-numbers": {11: "0.0", 15: "2.5e-10", 13: "0"},
+    # file indices that are small numbers (1-based numbering): a key names the reaction carrying that index, never
+    # the reaction at that position; zero-valued modifiers switch exactly their target off
+    "small-index-zero": {2: "0.0", 4: "0"},
+    "small-index": {3: "2.0*Av", 1: "zeta"},
 }
 ODE_SETS = {
     "dep1": {"H": {"factors": ["2.0"], "reactants": [["C"]]}},
@@ -95,13 +102,13 @@ def _terms(p, tdir, res):
 
 
 def _analyse(kind, name, tier, res):
-    files = [{"name": "net.kida", "content": KIDA_TEXT}]
+    files = [{"name": "net.kida", "content": KIDA_SMALL_TEXT if name in SMALL_INDEX_SETS else KIDA_TEXT}]
     base_kw = {"filelist": "net.kida", "fileformats": "kida", "elements": ["H", "C"], "pseudo_elements": ["Photon", "CR"]}
     rate_mod = RATE_SETS[name] if kind == "rate" else None
     ode_mod = ODE_SETS[name] if kind == "ode" else None
     tdirs = ["cvode_dense"] + (["odeint_rosenbrock4"] if tier == "thorough" or name in ("present", "dep2-signed") else [])
     targets = [proj.TARGETS["dense"], proj.TARGETS["odeint"]]
-    plain = proj.render(f"plain", {"files": files, "network": base_kw, "targets": targets})
+    plain = proj.render("plain-small" if name in SMALL_INDEX_SETS else "plain", {"files": files, "network": base_kw, "targets": targets})
     kw = dict(base_kw)
     if rate_mod:
         kw["rate_modifier"] = {str(k): v for k, v in rate_mod.items()}
